@@ -114,6 +114,26 @@ def job_random(job):
     return drivers.make_trace(directed, removal, calls, labeling=lab, forks=forks, rng=rng)
 
 
+def apalache_merge_lemma(chk):
+    """extra (never the basis of the claimed level): Apalache proves the per-pair Merge lemma for unbounded
+    integers and timelines of up to 5 intervals (spec/apalache/ApaMerge.tla)"""
+    import shutil
+    import subprocess
+    out = os.path.join(OUT, "tmp", "apa_%d" % os.getpid())
+    try:
+        p = subprocess.run(["apalache-mc", "check", "--init=Init", "--next=Next", "--inv=Lemma", "--length=0",
+                            "--out-dir=" + out, "ApaMerge.tla"], cwd=os.path.join(tlc.SPEC, "apalache"),
+                           stdout=subprocess.PIPE, stderr=subprocess.STDOUT, text=True, timeout=900)
+        verdict = "NoError" if "The outcome is: NoError" in p.stdout else ("Error" if "The outcome is: Error" in p.stdout else "did not run")
+    except Exception as ex:  # noqa: B902
+        verdict = "did not run: %s" % type(ex).__name__
+    shutil.rmtree(out, ignore_errors=True)
+    chk.extra["apalache_merge_lemma"] = {"module": "spec/apalache/ApaMerge.tla", "outcome": verdict,
+                                         "scope": "unbounded integers, timelines of up to 5 intervals, length 0"}
+    if verdict == "Error":
+        chk.violations.append({"kind": "model", "clause": "ApaMerge.Lemma", "replay": os.path.join(tlc.SPEC, "apalache", "ApaMerge.tla")})
+
+
 def sim_stage(chk, rng, modes_wanted, num):
     """beyond the exhaustive bounds: TLC -simulate behaviours of the model (4 nodes with self-loops, instants 0..8,
     invariants checked along the way) are replayed into the real classes and validated"""
@@ -211,6 +231,8 @@ def run(prop, tier, seed):
     repo_test_traces(chk)
     if tier == "thorough":
         sim_stage(chk, rng, modes_wanted, 25)
+        if prop in ("C01", "C03"):
+            apalache_merge_lemma(chk)
     chk.extra["bounded_states_replayed"] = n_states
     chk.extra["state_action_pairs_replayed"] = n_edges
     chk.assumptions = [
